@@ -32,8 +32,28 @@ M = [
 ]
 # behaviour changes that do NOT break C01/C02: must still verify (no false alarm)
 BENIGN = [
+ dict(id='B5-var-name-without-start-check (`$` alone is no token of the reference: C14 says nothing)', file='lexer.rs', old="        if !self.s.eat_if(is_identifier_start) {\n            return self.error(\"Invalid variable name\");\n        }\n", new=""),
+
  dict(id='B1-recover-drop-eof-test', file='parser.rs', old="if !self.at_set(&RECOVER_TOKENS) && !self.eof() {", new="if !self.at_set(&RECOVER_TOKENS) {"),
  dict(id='B2-changed-message', file='grammar/statement.rs', old='"expected filename after include"', new='"expected a file name after include"'),
  dict(id='B3-extra-error', file='grammar/statement.rs', old="    p.expect(T![then]);", new="    p.expect(T![then]);\n    if p.eof() { p.error(\"unexpected end of file in if\"); }"),
  dict(id='B4-reorder-independent', file='parser.rs', old="        self.errors.push(SyntaxError::new(range, message));\n        self.is_after_error = true;", new="        self.is_after_error = true;\n        self.errors.push(SyntaxError::new(range, message));"),
+]
+
+# ---- C14 (lexical conformance) and C20 (completion vocabulary)
+M += [
+ dict(id='L1-backslash-always-escapes', file='lexer.rs', old="Some('\\\\') => escaped = !escaped,", new="Some('\\\\') => escaped = true,", expect='C14'),
+ dict(id='L2-block-comments-do-not-nest', file='lexer.rs', old='            } else if self.s.eat_if("/*") {\n                depth += 1;\n            } else {', new='            } else {', expect='C14'),
+ dict(id='L3-sign-at-eof-is-error', file='lexer.rs', old="                '+' => return TokenKind::Plus,", new="                '+' => return self.error(\"Invalid number\"),", expect='C14'),
+ dict(id='L4-digit-leading-identifier-split', file='lexer.rs', old="        if base == 10 && c.is_ascii_digit() && self.s.at(is_identifier_start) {\n            return self.identifier(start);\n        }\n", new="", expect='C14'),
+ dict(id='L5-hex-digits-decimal-only', file='lexer.rs', old="16 => self.s.eat_while(char::is_ascii_hexdigit),", new="16 => self.s.eat_while(char::is_ascii_digit),", expect='C14'),
+ dict(id='L6-keyword-alias', file='lexer.rs', old='"defvar" => T![defvar],', new='"defvar" | "defv" => T![defvar],', expect='C14'),
+ dict(id='L7-bang-operator-mixed-up', file='lexer.rs', old='"and" => T![!and],', new='"and" => T![!add],', expect='C14'),
+ dict(id='L9-code-fragment-stops-at-brace', file='lexer.rs', old='        self.s.eat_until("}]");\n        if self.s.eat_if("}]") {', new='        self.s.eat_until("}");\n        if self.s.eat_if("}]") {', expect='C14'),
+ dict(id='L10-line-comment-eats-newline', file='lexer.rs', old="        self.s.eat_until(is_newline);\n        TokenKind::LineComment", new="        self.s.eat_until(is_newline);\n        self.s.eat();\n        TokenKind::LineComment", expect='C14'),
+ dict(id='K1-offered-keyword-not-lexed', file='lexer.rs', old='"defvar" => T![defvar],', new='"defvar_" => T![defvar],', expect='C20'),
+ dict(id='K2-lexer-accepts-unoffered-operator', file='lexer.rs', old='"and" => T![!and],', new='"and" | "conj" => T![!and],', expect='C20'),
+ dict(id='K3-offered-type-is-identifier', file='lexer.rs', old='"bits" => T![bits],', new='"bitz" => T![bits],', expect='C20'),
+ dict(id='K4-completion-offers-unknown-operator', file='../../ide/src/handlers/completion.rs', old='            "add",\n', new='            "addd",\n', expect='C20'),
+ dict(id='K5-completion-offers-unknown-keyword', file='../../ide/src/handlers/completion.rs', old='            "assert",\n', new='            "asserts",\n', expect='C20'),
 ]
